@@ -544,9 +544,11 @@ func (x *TopicsIndex) scanMessages(filter string, d int, n *particle, pks []pack
 	}
 
 	key, hasNext := isolateParticle(filter, d)
-	if key == "#" && d > 0 && d == strings.Count(filter, "/") && n.retainPath != "" {
-		if pk, ok := x.Retained.Get(n.retainPath); ok { // a trailing # also matches the parent level [MQTT-4.7.1-2]
-			pks = append(pks, pk)
+	if key == "#" && d > 0 && d == strings.Count(filter, "/") {
+		if retainPath := n.getRetainPath(); retainPath != "" {
+			if pk, ok := x.Retained.Get(retainPath); ok { // a trailing # also matches the parent level [MQTT-4.7.1-2]
+				pks = append(pks, pk)
+			}
 		}
 	}
 
@@ -557,8 +559,8 @@ func (x *TopicsIndex) scanMessages(filter string, d int, n *particle, pks []pack
 			}
 
 			if !hasNext {
-				if adjacent.retainPath != "" {
-					if pk, ok := x.Retained.Get(adjacent.retainPath); ok {
+				if retainPath := adjacent.getRetainPath(); retainPath != "" {
+					if pk, ok := x.Retained.Get(retainPath); ok {
 						pks = append(pks, pk)
 					}
 				}
@@ -576,7 +578,7 @@ func (x *TopicsIndex) scanMessages(filter string, d int, n *particle, pks []pack
 			return x.scanMessages(filter, d+1, particle, pks)
 		}
 
-		if pk, ok := x.Retained.Get(particle.retainPath); ok {
+		if pk, ok := x.Retained.Get(particle.getRetainPath()); ok {
 			pks = append(pks, pk)
 		}
 	}
@@ -786,6 +788,14 @@ func newParticle(key string, parent *particle) *particle {
 		shared:              NewSharedSubscriptions(),
 		inlineSubscriptions: NewInlineSubscriptions(),
 	}
+}
+
+// getRetainPath returns the path of the retained message of the particle, which
+// may be changed concurrently by RetainMessage.
+func (p *particle) getRetainPath() string {
+	p.Lock()
+	defer p.Unlock()
+	return p.retainPath
 }
 
 // particles is a concurrency safe map of particles.
